@@ -66,7 +66,8 @@ theorem afterBlock_post (recur : Nat → SortSt → SortRes) (names : List Strin
   unfold afterBlock
   simp only
   split
-  · split
+  · rename_i hne
+    split
     · split <;> (intro _; exact (fun _ => Or.inl rfl))
     · split
       · split
@@ -82,7 +83,7 @@ theorem afterBlock_post (recur : Nat → SortSt → SortRes) (names : List Strin
           have h0 : Reach names st (if (st.cs[idx]!).before = "" then
               ({ st with cs := setBefore st.cs idx (st.cs[i]!).name } : SortSt) else st) := by
             split
-            · exact Reach.one (Atomic.setBefore st i idx hi hg)
+            · exact Reach.one (Atomic.setBefore st i idx hi hne hg)
             · exact Reach.refl _
           have hd0 : D st (if (st.cs[idx]!).before = "" then
               ({ st with cs := setBefore st.cs idx (st.cs[i]!).name } : SortSt) else st) := by
